@@ -82,6 +82,8 @@ def replay(rep, path):
     d = json.load(open(path))["detail"]
     c = d["case"]
     fn = {"read": fileexec.exec_read, "transform": fileexec.exec_transform, "write": fileexec.exec_write, "roundtrip": fileexec.exec_roundtrip}[c["fam"]]
+    if c.get("src") == "cli":
+        fn = fileexec.exec_cli_bag
     for seed in range(4):
         o = fn((d["n"], c, seed))
         print("observed (seed %d):" % seed, o)
